@@ -21,10 +21,12 @@ ASSUMPTIONS = ["a file object is an ordinary io.BufferedReader over the same byt
 def variants(path):
     import os
     size = os.path.getsize(path)
-    for mem, strict, kind, give_size, entry in itertools.product((False, True), (True, False), ("path", "fileobj"),
+    for mem, strict, kind, give_size, entry in itertools.product((False, True), (True, False), ("path", "fileobj", "fileobj_rel"),
                                                                    (False, True), ("class", "interface")):
         if entry == "interface" and (kind != "path" or give_size):
             continue
+        if kind == "fileobj_rel" and (give_size or mem != strict):
+            continue        # (two of the eight combinations are enough for this identifier kind)
         yield dict(mem=mem, strict=strict, kind=kind, size=size if give_size else None, entry=entry)
 
 
@@ -61,18 +63,38 @@ def dump_variant(path, v):
             fh.seek([0, 0, 100, 7][state[0] % 4], [2, 0, 0, 0][state[0] % 4])
             if state[0] % 2:
                 fh.read(64)
+    cwd = None
+    if v["kind"] == "fileobj_rel":
+        # a file object opened by relative name; afterwards the working directory changes to a directory that holds a
+        # different, shorter file of the same name: whatever the library needs it must take from the object, not from
+        # the object's name
+        import os
+        import tempfile
+        cwd = os.getcwd()
+        decoy_dir = tempfile.mkdtemp(prefix="c13decoy")
+        with open(os.path.join(decoy_dir, os.path.basename(path)), "wb") as dfh:
+            dfh.write(open(path, "rb").read(100) + b"\x00" * 17)
+        os.chdir(os.path.dirname(path))
+        fh = open(os.path.basename(path), "rb")
+        os.chdir(decoy_dir)
+        ident = fh
     try:
         s, db, e = D.dump_db(path, mem=v["mem"], strict=v["strict"], size=v["size"], identifier=ident, between=between)
         return s
     finally:
         if fh:
             fh.close()
+        if cwd:
+            import shutil
+            os.chdir(cwd)
+            shutil.rmtree(decoy_dir, ignore_errors=True)
 
 
 def run(ctx, n_quick=8, n_thorough=60):
     sc = C.Scratch()
     try:
-        for b in C.build_databases(ctx, sc, C.n_databases(ctx, n_quick, n_thorough), small=True):
+        for b in C.build_databases(ctx, sc, C.n_databases(ctx, n_quick, n_thorough), small=True,
+                                   force={"table_boundary": lambda i: i == 1}):      # (every database is parsed ~60 times here)
             base = None
             for v in variants(b.path):
                 s1 = dump_variant(b.path, v)
@@ -94,9 +116,11 @@ def run(ctx, n_quick=8, n_thorough=60):
                     C.compare_db_dump(ctx, b.path, "db.dump", mem=mem, strict=strict)
         r = ctx.rng
         # (a restarted log first: state leaking from one parse into the next shows on the logs parsed after it)
-        kinds = ["checkpoint_restart", None, "restart_after_rollback", "spill", None, "ddl"]
-        for i in range(6 if ctx.thorough() else 3):
+        kinds = ["checkpoint_restart", "grow_shrink", "restart_after_rollback", None, "spill", None, "ddl", "grow_shrink"]
+        for i in range(8 if ctx.thorough() else 4):
             cfg = F.random_cfg(r, page_sizes=[512, 1024, 4096], small=True)
+            if kinds[i % len(kinds)] == "grow_shrink":
+                cfg.update(auto_vacuum=1 + i % 2, rows=60)      # a commit that leaves the database with fewer pages
             h = H.make_history(sc.path(f"h{i}"), cfg, r, kind=kinds[i % len(kinds)])
             ctx.branch(f"history:{h.kind}")
             outs = []
